@@ -9,7 +9,7 @@ META = dict(
     level_note='Trusted: translator, shims, CBMC; floating-point expression trees are compared by structure (same operator tree on the '
                'same operands), so an algebraically equal re-association is reported as undecided after native replay, not as a violation; '
                'Surface::local_value and NaturalCoordinate::get_surface_point are contract stubs (any value).',
-    scope='get_temperature of uniform / adiabatic / linear for continental plate, oceanic plate, mantle layer, subducting plate, fault; chapman geotherm; half-space cooling model of the oceanic plate (age = ridge distance / spreading velocity); plume uniform and Gaussian temperature; uniform raw velocity and uniform grains of all six feature families; smooth composition of the subducting plate and of the fault (uniform composition of all families: C02); the ridge look-up Utilities::calculate_ridge_distance_and_spreading behind half-space / plate cooling',
+    scope='get_temperature of uniform / adiabatic / linear for continental plate, oceanic plate, mantle layer, subducting plate, fault; chapman geotherm; half-space cooling model of the oceanic plate (age = ridge distance / spreading velocity); plume uniform and Gaussian temperature; uniform raw velocity and uniform grains of all six feature families; smooth composition of the subducting plate and of the fault (uniform composition of all families: C02); the ridge look-up Utilities::calculate_ridge_distance_and_spreading behind half-space / plate cooling; parse_entries of 18 area-feature models (own depth range = extremes of the depth surfaces, shared with C07)',
     not_covered=['the documented "min distance fault center" of the fault smooth composition (unused by the code, not part of the contract)', 'tian2019 water content, mass conserving slab temperature, random models (no closed form documented)', 'the Fourier-sum bodies of the plate model and the constant-age plate model (loops over the summation terms)'],
     enforced_elsewhere={},
 )
@@ -161,6 +161,14 @@ UNITS.append(dict(
     loops={(_ffn, 1): dict(contract='__CPROVER_assigns(i)\n'
                                     '__CPROVER_loop_invariant(i <= this_->compositions.n && (g_listed ==> i <= g_first))\n'
                                     '__CPROVER_decreases(this_->compositions.n - i)')}))
+
+# depth-range wiring of the area-feature models (parse_entries: global bounds = extremes of the depth surfaces): the C07 units, run here too
+# because "a model applies only inside its own min/max range" depends on it
+import importlib.util as _ilu5
+_s7 = _ilu5.spec_from_file_location('c07', os.path.join(os.path.dirname(os.path.abspath(__file__)), 'C07.py'))
+_c07 = _ilu5.module_from_spec(_s7)
+_s7.loader.exec_module(_c07)
+UNITS += [u for u in _c07.UNITS if u['name'].endswith('_bounds')]
 
 def adiab(z, tp=TP, alpha=ALPHA, cp=CP):
     return tp * math.exp(alpha * G * z / cp)
@@ -354,7 +362,38 @@ def fault_smooth_oracle(work):
     return dict(status='holds', detail='3 fault worlds x 7 distances agree with side + (center - side)*S')
 
 
+def bounds_oracle(work):
+    """models with laterally varying depth range: a point inside the local range is painted even when it lies outside the range
+    the model has elsewhere (the global pre-test bounds must be the extremes of the depth surfaces)"""
+    import oracle
+    for fam in FEATURE_NAME.values():
+        rng = {"min depth": [[60e3], [5e3, [[500e3, 500e3]]]], "max depth": [[100e3], [300e3, [[500e3, 500e3]]]]}
+        feat = {"model": fam, "name": "F", "min depth": 0, "max depth": 400e3, "coordinates": [[0, 0], [1e6, 0], [1e6, 1e6], [0, 1e6]],
+                "temperature models": [dict({"model": "uniform", "temperature": 1234.0}, **rng)],
+                "composition models": [dict({"model": "uniform", "compositions": [0]}, **rng)],
+                "velocity models": [dict({"model": "uniform raw", "velocity": [1, 2, 3]}, **rng)]}
+        q = oracle.Q(json.dumps({"version": "1.1", "coordinate system": {"model": "cartesian"}, "features": [feat]}), work, name='bounds')
+        try:
+            if q.construct_error:
+                return dict(status='error', detail=q.construct_error)
+            # at the listed point the local range is 5..300 km although every other node says 60..100 km
+            for d in (20e3, 80e3, 200e3, 290e3):
+                st, v = q.ask('p3 500e3 500e3 %r %r 1,0,0 2,0,0 5,0,0' % (1000e3 - d, d))
+                if st != 'OK':
+                    continue
+                got = [float.fromhex(x) for x in v]
+                if got != [1234.0, 1.0, 1.0, 2.0, 3.0]:
+                    return dict(status='violated', input=dict(feature=feat, point=[500e3, 500e3, d]),
+                                detail='%s with models whose depth range is 5..300 km at the listed point (500 km, 500 km) and 60..100 km at the corners: at depth %g km in that column '
+                                       '[temperature, composition, velocity] = %s, expected [1234, 1, 1, 2, 3]' % (fam, d / 1e3, got))
+        finally:
+            q.close()
+    return dict(status='holds', detail='uniform temperature / composition / velocity with laterally varying depth range apply inside their local range, 3 families')
+
+
 def native_oracle(witness, work, search_seed=None):
+    if witness.get('unit', '').endswith('_bounds'):
+        return bounds_oracle(work)
     if witness.get('unit') == 'ridge_distance':
         return ridge_oracle(work)
     if witness.get('unit') == 'fault_C_smooth':
